@@ -27,6 +27,10 @@ def _chain(fn, var):
     """Top-level if/elif/else chain testing `var`: [(region ISet, body stmts, test)] + else body."""
     for s in fn.body:
         if isinstance(s, ast.If) and _mentions(s.test, var) and not _is_redundant_guard(s):
+            if all(isinstance(b, ast.Raise) for b in s.body) and not s.orelse:
+                continue          # a range guard, not the dispatch chain
+            if not s.orelse:
+                continue          # a single test is not a partition of the index space
             return s
     return None
 
